@@ -15,8 +15,8 @@ Opts == {Opt("weight", "0.5"), Opt("weight", "abc"), Opt("weight", "Inf"), Opt("
          Opt("host", "dst"), Opt("foo", "bar"), Opt("q", "a\"b"),
          [k |-> "redirect", v |-> "301,https://t.example/$path", txt |-> "redirect=301,https://t.example/$path",
           code |-> "301", url |-> "https://t.example/$path"]}
-Tags == {"plain", "a\"quote", "back\\slash", "@nonascii"}   \* "@nonascii" is spelled with non-ASCII letters by the harness
-MCQuoteTokens == {"a\"quote", "q=a\"b"}
+Tags == {"plain", "a\"quote", "back\\slash", "@nonascii", "@newline"}   \* "@nonascii" is spelled with non-ASCII letters by the harness
+MCQuoteTokens == {"a\"quote", "q=a\"b", "@newline"}   \* "@newline": a tag with a line break followed by a route command (cannot be written inside the quotes of a one-line command)
 
 Denote2(r2) == [svc |-> r2.name, src |-> r2.prefix, dst |-> Dst(r2), weight |-> "", tags |-> r2.tags, opts |-> {}]
 VARIABLES phase, cur
